@@ -254,6 +254,36 @@ def gen_cases(ck):
                                                        expect=[("ok", None), ("any",), ("ok", show_data(w.read(DATA, 4)))],
                                                        fault="manifest", retry=3, model=False))
                 cases.append(c)
+    # cooperating faults: a write split into three commands (44 + 44 + 12 bytes) whose WriteMem acknowledges are
+    # well-formed but report written lengths that are wrong one by one and right in total -- every command's
+    # acknowledge has to be of the right size, so the write must fail; and single wrong lengths at each chunk
+    wop = dict(k="w", a=DATA + 300, n=100, seed=9)
+    chunks = [44, 44, 12]
+    for ds in ((-1, 1, 0), (3, 0, -3), (1, -1, 0), (0, 5, -5), (-44, 44, 0), (12, 0, -12), (0, -1, 1), (2, -1, -1),
+               (1, 0, 0), (0, -2, 0), (0, 0, 7)):
+        w = std_world(MC, MA, 5)
+        w.fill(DATA, DATA_LEN, 23)
+        wt = list(w.toks) + [6, 6]
+        for ch, d in zip(chunks, ds):
+            wt += [5, -1, 1, 1, 1, 1, 14, (ch + d) & 0xFFFF] if d else [6, 1]
+        follow = dict(k="r", a=DATA + 290, n=120)
+        optoks = [OPEN, WRITEPAT, wop["a"], wop["n"], wop["seed"], READ, follow["a"], follow["n"]]
+        add("write-lengths %r" % (ds,), w, wt, optoks, [("ok", None), ("err",), ("any",)])
+    # a long history: more than 65536 successful transactions on one handle (request-id wrap), then a fault, then
+    # recovery -- the id arithmetic must neither panic nor lose the match between command and acknowledge.
+    # 68,000 transactions take minutes in the kernel VM: implementation + predicate only in the quick tier.
+    w = std_world(24, 13, 5)
+    w.fill(DATA, DATA_LEN, 23)
+    wt = list(w.toks) + [6, 6 + 17 * 4000] + [5, -1, 1, 1, 1, 1, 10, 0x1234] + [6, 1]
+    optoks = [OPEN]
+    exp = [("ok", None)]
+    for _i in range(17):
+        optoks += [READ, DATA, 4000]
+        exp.append(("ok", show_data(w.read(DATA, 4000))))
+    optoks += [READ, DATA + 1, 1, READ, DATA + 2, 1]
+    exp += [("err",), ("ok", show_data(w.read(DATA + 2, 1)))]
+    cases.append(ctl_case(wt, optoks, dict(name="request-id wrap then wrong id", expect=exp, fault="wrap", retry=3,
+                                           model=not quick)))
     # faults inside enable_streaming
     for at in range(6, 6 + 16):
         for kn, ftoks in kinds[:4]:
@@ -271,7 +301,9 @@ def main():
                "garbage packets, stale acknowledge, pending x0..5 / forever / malformed), each followed by a conforming "
                "read (recovery); 7 fault kinds at every transaction of open / 3-chunk read / 3-chunk write; random "
                "double faults; degenerate limits 0..25 / u32::MAX; hostile bootstrap registers (SBRM/SIRM near 2^64 or "
-               "unmapped, alignment exponents 31/32/64/255, maximal required sizes); faults inside enable_streaming; XML retrieval "
+               "unmapped, alignment exponents 31/32/64/255, maximal required sizes); faults inside enable_streaming; "
+               "cooperating wrong written-length fields over a three-command write (wrong one by one, right in total); a "
+               "history of 68,000 transactions (request-id wrap) followed by a wrong-id acknowledge and recovery; XML retrieval "
                "from manifest tables placed at every offset of the top of the address space with entry counts 0..2^64-1. "
                "Predicate (independent): no panic, no hang, fatal faults give Err, benign ones give the true memory, "
                "Ok never carries other bytes, at most `retry` receives per command, the follow-up read succeeds.")
